@@ -13,17 +13,13 @@ open PV.Hash
 
 def specMax : Nat := 1 <<< 26
 
-def specOf : HashType → Spec.MDSpec
-  | .md5 => Spec.md5 | .sha1 => Spec.sha1 | .sha224 => Spec.sha224
-  | .sha256 => Spec.sha256 | .sha384 => Spec.sha384 | .sha512 => Spec.sha512
-
 def algOfName : String → Option HashType
   | "md5" => some .md5 | "sha1" => some .sha1 | "sha224" => some .sha224
   | "sha256" => some .sha256 | "sha384" => some .sha384 | "sha512" => some .sha512
   | _ => none
 
 structure St where
-  h : Option PHash := none
+  h : Option ((t : HashType) × PHash t) := none
   /-- bytes updated since creation / last reset, before the first read (`none`: too many to keep) -/
   msg : Option ByteArray := some ByteArray.empty
   /-- a digest was read since the last reset -/
@@ -35,34 +31,34 @@ def St.specAdd (s : St) (n : Nat) (bytes : Unit → ByteArray) : St :=
   | none => s
   | some m => if m.size + n > specMax then { s with msg := none } else { s with msg := some (m ++ bytes ()) }
 
-def specDigest (s : St) (t : HashType) : Option (List UInt8) := s.msg.map fun m => (specOf t).H m
+def specDigest (s : St) (t : HashType) : Option (List UInt8) := s.msg.map fun m => (Spec.ofType t).H m
 
 def step (s : St) (toks : List String) : IO (St × Bool) := do
   match toks, s.h with
   | ["new", a], _ =>
     match algOfName a with
-    | some t => IO.println "ok"; return ({ h := some (PHash.new t) }, false)
+    | some t => IO.println "ok"; return ({ h := some ⟨t, PHash.new t⟩ }, false)
     | none => IO.println "bad-op"; return ({ s with h := none }, false)
   | _, none => IO.println "bad-op"; return (s, false)
-  | ["upd", hex], some h =>
+  | ["upd", hex], some ⟨t, h⟩ =>
     match bytesOfHex hex with
     | some l =>
       let b := l.toByteArray
       IO.println "ok"
-      return ({ s.specAdd b.size (fun _ => b) with h := some (h.update b) }, false)
+      return ({ s.specAdd b.size (fun _ => b) with h := some ⟨t, h.update b⟩ }, false)
     | none => IO.println "bad-op"; return (s, false)
-  | ["updz", n], some h =>
+  | ["updz", n], some ⟨t, h⟩ =>
     match n.toNat? with
     | some n =>
       IO.println "ok"
-      return ({ s.specAdd n (fun _ => zeroBytes n) with h := some (h.update { bytes := ByteArray.empty, zeros := n }) }, false)
+      return ({ s.specAdd n (fun _ => zeroBytes n) with h := some ⟨t, h.update { bytes := ByteArray.empty, zeros := n }⟩ }, false)
     | none => IO.println "bad-op"; return (s, false)
-  | ["str"], some h =>
+  | ["str"], some ⟨t, h⟩ =>
     let (h', str) := h.getString
-    let sp := (specDigest s h.type).map hexOf
+    let sp := (specDigest s t).map hexOf
     IO.println (str ++ (match sp with | some x => if x = str then "" else " SPECDIFF " ++ x | none => ""))
-    return ({ s with h := some h', read := true }, false)
-  | "dig" :: rest, some h =>
+    return ({ s with h := some ⟨t, h'⟩, read := true }, false)
+  | "dig" :: rest, some ⟨t, h⟩ =>
     let cap? : Option Nat := match rest with | [] => some 64 | [c] => c.toNat? | _ => none
     match cap? with
     | none => IO.println "bad-op"; return (s, false)
@@ -72,11 +68,11 @@ def step (s : St) (toks : List String) : IO (St × Bool) := do
         | none => "0 "
         | some d => toString d.length ++ " " ++ hexOfBytes d
       let ans := fmt r
-      let sp := if h.type.hashLen > cap then some "0 " else (specDigest s h.type).map fun d => fmt (some d)
+      let sp := if t.hashLen > cap then some "0 " else (specDigest s t).map fun d => fmt (some d)
       IO.println (ans ++ (match sp with | some x => if x = ans then "" else " SPECDIFF " ++ x | none => ""))
-      return ({ s with h := some h', read := s.read || r.isSome }, false)
-  | ["len"], some h => IO.println (toString h.getLength); return (s, false)
-  | ["reset"], some h => IO.println "ok"; return ({ h := some h.reset }, false)
+      return ({ s with h := some ⟨t, h'⟩, read := s.read || r.isSome }, false)
+  | ["len"], some ⟨_, h⟩ => IO.println (toString h.getLength); return (s, false)
+  | ["reset"], some ⟨t, h⟩ => IO.println "ok"; return ({ h := some ⟨t, h.reset⟩ }, false)
   | _, _ => IO.println "bad-op"; return (s, false)
 
 def run : IO Unit := do
